@@ -397,6 +397,18 @@ theorem find_blank_range (rw n col : Nat) :
       rfl
   · simp [h]
 
+theorem maxCol_of_le : ∀ (cs : List Cell) (m : Nat), (∀ c ∈ cs, c.col ≤ m) → maxCol m cs = m := by
+  intro cs
+  induction cs with
+  | nil => intros; rfl
+  | cons c cs ih =>
+    intro m h
+    unfold maxCol
+    simp only [List.foldl_cons]
+    have hc : ¬ (c.col > m) := by have := h c List.mem_cons_self; omega
+    simp only [hc, if_false]
+    exact ih m (fun x hx => h x (List.mem_cons_of_mem _ hx))
+
 /-- **Row level.** What a save does to one dense row that stays in memory or is
 re-read: trim (`trimRow`, in place) followed by `checkRow` gives back a dense
 row with the same number, the same attribute, and the same content at every
@@ -449,6 +461,7 @@ theorem trim_check_row (rw : Nat) (hid : Bool) (cells : List Cell)
       have hlb := dense_mem_le cells l hd hlm
       by_cases hlt : (cells.filter hv).length < l.col
       · simp only [hlt, if_true]
+        rw [maxCol_of_le _ l.col (sorted_mem_le _ 0 l hsf hl)]
         have hdt := dense_blank_range (idx + 1) l.col 0
         rw [hidx] at hdt
         have hrange : List.range l.col = List.range' 0 l.col := List.range_eq_range' ..
@@ -757,11 +770,33 @@ theorem renumber_numbered (rows : List Row) (h : numbered 0 rows = true) :
     cases r; simp at hr; simp [hr]
 
 /-- `checkSheet` is the identity on the rows `trimRow` leaves for a dense worksheet -/
-theorem checkSheet_trim (s : Sheet) (h : denseRows 0 s.rows = true) :
+theorem numbered_get : ∀ (rows : List Row) (i j : Nat) (r : Row), numbered i rows = true →
+    rows[j]? = some r → r.r = i + j + 1 := by
+  intro rows
+  induction rows with
+  | nil => intro i j r _ h; simp at h
+  | cons a rows ih =>
+    intro i j r h hj
+    simp only [numbered, Bool.and_eq_true, beq_iff_eq] at h
+    cases j with
+    | zero => simp at hj; subst hj; omega
+    | succ j => simp at hj; have := ih (i + 1) j r h.2 hj; omega
+
+theorem checkSheet_trim (s : Sheet) (h : denseRows 0 s.rows = true)
+    (hlen : s.rows.length ≤ Facts.TotalRows) :
     checkSheet (trimRow s).rows = Res.ok (trimRow s).rows := by
   have hn : numbered 0 (trimRow s).rows = true := numbered_trim _ 0 (dense_numbered _ 0 h)
-  generalize (trimRow s).rows = rows at hn
+  have hlen' : (trimRow s).rows.length ≤ Facts.TotalRows := by simpa [trimRow] using hlen
+  generalize (trimRow s).rows = rows at hn hlen'
   unfold checkSheet
+  have hb : rows.any (fun r => decide (r.r > Facts.TotalRows)) = false := by
+    rw [List.any_eq_false]
+    intro r hr
+    obtain ⟨j, hj, e⟩ := List.mem_iff_getElem.mp hr
+    have h1 : rows[j]? = some r := by rw [List.getElem?_eq_getElem hj, e]
+    have := numbered_get rows 0 j r hn h1
+    simp; omega
+  simp only [hb, Bool.false_eq_true, if_false]
   rw [checkSheetMax_numbered rows 0 hn]
   cases hl : rows.getLast? with
   | none => rfl
